@@ -36,20 +36,20 @@ import (
 // simulated kernel, decoding every child IE).
 
 type c07 struct {
-	driver string
-	tier   string
-	w      *sworld.World
-	fw     *fworld.World
-	hist   []seqx.Event
-	sessUP [2]uint64 // live session of peer A / B (0 none)
-	ended  []uint64
-	txSeq  uint32
-	hasTx  bool
-	swept  bool
+	driver     string
+	tier       string
+	w          *sworld.World
+	fw         *fworld.World
+	hist       []seqx.Event
+	sessUP     [2]uint64 // live session of peer A / B (0 none)
+	ended      []uint64
+	txSeq      uint32
+	hasTx      bool
+	swept      bool
 	baseTokens map[string]bool
 	baseSess   int
-	seq    uint32
-	nMut   int64
+	seq        uint32
+	nMut       int64
 }
 
 func c07Spec(tier, scenario string) seqx.Spec {
